@@ -497,6 +497,111 @@ def eval_refusal(case):
 # ---------------------------------------------------------------------------------------------
 
 
+# numpy scalars of narrow types: the factor is exact, so must the result be (contents x c, squared errors x c*c, missed x c,
+# recorded weight x c) - c*c leaves the scalar's own range in most of these
+NARROW = [("int8", 16), ("int8", 100), ("uint8", 20), ("int16", 200), ("int32", 70000), ("uint16", 300), ("float16", 2.0), ("float16", 300.0),
+          ("float32", 0.5), ("float32", 1e20)]
+
+
+def eval_narrow(case):
+    b, (tname, val), op = case["base"], case["scalar"], case["op"]
+    sysm = ScaleSystem(b, 1)
+    h = sysm.factory()
+    c = np.dtype(tname).type(val)
+    fc = frac(float(c))
+    before = content_snap(h)
+
+    def do():
+        nonlocal h
+        if op == "mul":
+            return h * c
+        if op == "rmul":
+            return c * h
+        if op == "div":
+            return h / c
+        if op == "imul":
+            h *= c
+            return h
+        h /= c
+        return h
+
+    hh = h
+    res = call(do)
+    sb = f"narrow|{tname}|{op}"
+    out = []
+    if not res.ok:
+        out.append(V("must_succeed", f"{sb}|{exc_sig(res.exc)}", case, "scaled histogram", res.describe()))
+        return out
+    r = res.value
+    if not hasattr(r, "frequencies"):
+        return [V("returns_histogram", f"{sb}|not_a_histogram", case, "a histogram", type(r).__name__)]
+    ex = sysm.exact
+    mulf = (lambda x: x * fc) if op in ("mul", "rmul", "imul") else (lambda x: x / fc)
+    mule = (lambda x: x * fc * fc) if op in ("mul", "rmul", "imul") else (lambda x: x / (fc * fc))
+    exact_div = op in ("mul", "rmul", "imul") or (fc.numerator == 1 or (fc.denominator == 1 and (fc.numerator & (fc.numerator - 1)) == 0))
+
+    def cmp(name, got, want):
+        got = [float(x) for x in got]
+        want = [float(x) for x in want]
+        for g, w in zip(got, want):
+            if not (g == w or (math.isfinite(g) and abs(g - w) <= (0 if exact_div else 1e-12) * abs(w)) or (not exact_div and math.isfinite(g) and abs(g - w) <= 1e-12 * max(abs(w), 1e-300))):
+                return [V(name, f"{sb}|{name}", case, want, got)]
+        return []
+
+    out += cmp("contents", r.frequencies.ravel().tolist(), [mulf(x) for x in ex["c"]])
+    out += cmp("errors2", r.errors2.ravel().tolist(), [mule(x) for x in ex["e2"]])
+    out += cmp("missed", observed_missed(r), [mulf(x) for x in ex["missed"]])
+    st = getattr(r, "statistics", None)
+    if st is not None and ex["stats"] is not None:
+        out += cmp("stats_weight", [st.weight, st.sum], [mulf(ex["stats"]["weight"]), mulf(ex["stats"]["sum"])])
+        m0 = float(ex["stats"]["sum"] / ex["stats"]["weight"]) if ex["stats"]["weight"] else None
+        if m0 is not None and not (abs(st.mean() - m0) <= 1e-9 * max(1.0, abs(m0))):
+            out.append(V("mean_invariant", f"{sb}|mean", case, m0, fl(st.mean())))
+    if op in ("mul", "rmul", "div") and content_snap(hh) != before:
+        out.append(V("operand_untouched", f"{sb}|operand_modified", case, before, content_snap(hh)))
+    return out
+
+
+def eval_empty_refusal(case):
+    """Negative factors are refused also when there is nothing in the bins (missed counters and the recorded weight scale too)."""
+    from physt.types import Histogram1D, Histogram2D
+
+    if case["base"] == "1d_zero_bins_some_missed":
+        h = Histogram1D(np.array([0.0, 1.0, 2.0]), [0, 0], underflow=1, overflow=2)
+    elif case["base"] == "1d_all_zero":
+        h = Histogram1D(np.array([0.0, 1.0, 2.0]), [0, 0])
+    else:
+        h = Histogram2D([np.array([0.0, 1.0]), np.array([0.0, 1.0, 2.0])], np.zeros((1, 2)), missed=3)
+    n = case["name"]
+    before = content_snap(h)
+
+    def do():
+        nonlocal h
+        if n == "mul_negative":
+            return h * -1
+        if n == "rmul_negative":
+            return -0.5 * h
+        if n == "mul_neg_np":
+            return h * np.float64(-2.0)
+        if n == "imul_negative":
+            h *= -0.5
+            return h
+        if n == "div_negative":
+            return h / -2
+        h /= np.int64(-2)
+        return h
+
+    hh = h
+    res = call(do)
+    out = []
+    sb = f"refusal|{case['base']}|{n}"
+    if res.ok:
+        out.append(V("must_raise", sb, case, "refused", res.describe() + " missed now " + str([fl(x) for x in observed_missed(res.value)])))
+    if content_snap(hh) != before:
+        out.append(V("operand_untouched", f"{sb}|operand_modified", case, before, content_snap(hh)))
+    return out
+
+
 def units(tier, seed):
     thorough = tier == "thorough"
     us = []
@@ -507,6 +612,7 @@ def units(tier, seed):
     us.append({"kind": "partial"})
     us.append({"kind": "collection"})
     us.append({"kind": "refusals"})
+    us.append({"kind": "narrow"})
     return us
 
 
@@ -569,6 +675,26 @@ def run_unit(unit, ctx):
                     p.ev(True)
                     p.extend(vs)
         p.sample(case)
+    elif kind == "narrow":
+        for b in bases():
+            for sc in NARROW:
+                if b == "1d_float32" and sc[1] in (1e20, 70000, 300.0, 300):
+                    continue  # the products leave the range of the histogram's own (user-chosen) float32: not the scalar's fault
+                for op in OPS:
+                    case = {"narrow": True, "base": b, "scalar": list(sc), "op": op}
+                    vs = eval_narrow(case)
+                    p.ev(True)
+                    p.states += 1
+                    p.extend(vs)
+                    p.outcome("narrow:" + ("viol" if vs else "ok"))
+        for b in ("1d_zero_bins_some_missed", "1d_all_zero", "2d_all_zero_some_missed"):
+            for n in ("mul_negative", "rmul_negative", "mul_neg_np", "imul_negative", "div_negative", "idiv_negative_np"):
+                case = {"empty_refusal": True, "base": b, "name": n}
+                vs = eval_empty_refusal(case)
+                p.ev(True)
+                p.extend(vs)
+                p.outcome("refusal:" + ("viol" if vs else "ok"))
+        p.sample(case)
     elif kind == "refusals":
         for b in bases():
             for n in REFUSALS:
@@ -582,6 +708,10 @@ def run_unit(unit, ctx):
 
 
 def replay(case):
+    if case.get("narrow"):
+        return eval_narrow(case)
+    if case.get("empty_refusal"):
+        return eval_empty_refusal(case)
     if "name" in case:
         return eval_refusal(case)
     if "scalar" in case:
